@@ -9,6 +9,7 @@ CONSTANTS
   FnOut = FALSE
   Poller = FALSE
   Aging = FALSE
+  Overruns = FALSE
   Gen = "off"
 PROPERTIES Terminates
 CHECK_DEADLOCK TRUE
